@@ -3,6 +3,8 @@ package main
 import (
 	"fmt"
 	"math"
+	"os"
+	"strings"
 )
 
 // Counterexample-guided refinement of uninterpreted functions.  math.Pow,
@@ -79,8 +81,15 @@ func (e *Exec) refineUF() bool {
 }
 
 func sameModelValue(got, want string) bool {
+	got, want = strings.TrimSpace(got), strings.TrimSpace(want)
 	if got == want {
 		return true
+	}
+	isBV := func(s string) bool {
+		return strings.HasPrefix(s, "#x") || strings.HasPrefix(s, "#b") || strings.HasPrefix(s, "(_ bv")
+	}
+	if isBV(got) && isBV(want) {
+		return parseBV(got) == parseBV(want)
 	}
 	g, ok1 := parseFP(got)
 	w, ok2 := parseFP(want)
@@ -90,18 +99,187 @@ func sameModelValue(got, want string) bool {
 	return false
 }
 
-// checkRefined is check-sat followed by UF refinement rounds.
+// firstMismatch returns the first recorded application (in creation order,
+// inner applications first) whose value in the current model differs from
+// the native function at the model's arguments.
+func (e *Exec) firstMismatch() (app *ufApp, vals []string, want string) {
+	for i := range e.ufApps {
+		a := &e.ufApps[i]
+		vs := make([]string, len(a.args))
+		ok := true
+		for j, t := range a.args {
+			vs[j] = e.sol.GetValue(t)
+			if vs[j] == "" {
+				ok = false
+			}
+		}
+		if !ok {
+			continue
+		}
+		w, ok := a.eval(vs)
+		if !ok {
+			continue
+		}
+		if sameModelValue(e.sol.GetValue(a.term), w) {
+			continue
+		}
+		return a, vs, w
+	}
+	return nil, nil, ""
+}
+
+func ufFact(a *ufApp, vals []string, want string) string {
+	conds := ""
+	for i, t := range a.args {
+		conds += " (= " + t + " " + vals[i] + ")"
+	}
+	return "(=> (and true" + conds + ") (= " + a.term + " " + want + "))"
+}
+
+// pinnedDescent: the solver holds a sat model.  Fix the arguments of the
+// first mismatching application to the model's values and give the
+// application its native value there, re-check, and repeat for the next
+// mismatch (inner applications first, so the arguments of outer ones settle).
+// Ends with a model in which every application has its native value (true:
+// a real counterexample; its inputs are cached for the caller), or with the
+// finding that this concrete point is not one (false; the facts learned are
+// returned so that the caller can state them outside the scope).
+func (e *Exec) pinnedDescent() (consistent bool, res string, facts []string) {
+	e.sol.Send("(push 1)")
+	defer e.sol.Send("(pop 1)")
+	// a push discards the model: ask again
+	if res = e.sol.Check(); res != "sat" {
+		return false, res, nil
+	}
+	for it := 0; it <= len(e.ufApps)+1; it++ {
+		a, vals, want := e.firstMismatch()
+		if a == nil {
+			e.cachedModel = e.model()
+			return true, "sat", facts
+		}
+		for i, t := range a.args {
+			e.sol.Send("(assert (= " + t + " " + vals[i] + "))")
+		}
+		e.sol.Send("(assert (= " + a.term + " " + want + "))")
+		facts = append(facts, ufFact(a, vals, want))
+		res = e.sol.Check()
+		if res != "sat" {
+			return false, res, facts
+		}
+	}
+	return false, "unknown", facts
+}
+
+// checkRefined is check-sat followed by counterexample-guided refinement of
+// the uninterpreted functions.  "sat" is only returned for a model in which
+// every recorded application agrees with the native function.
 func (e *Exec) checkRefined() string {
-	for round := 0; round < 12; round++ {
+	e.cachedModel = nil
+	for round := 0; round < 10; round++ {
 		r := e.sol.Check()
 		if r != "sat" || len(e.ufApps) == 0 {
 			return r
 		}
-		if !e.refineUF() {
+		if a, _, _ := e.firstMismatch(); a == nil {
 			return "sat"
+		}
+		ok, res, facts := e.pinnedDescent()
+		if ok {
+			return "sat"
+		}
+		if res == "unknown" {
+			return "unknown"
+		}
+		// that concrete point is not a counterexample; what was learned
+		// there is true everywhere, state it and look for another point
+		for _, f := range facts {
+			e.sol.Send("(assert " + f + ")")
 		}
 		e.st.UFRefinements++
 	}
+	if os.Getenv("VERIF_DEBUG") != "" {
+		fmt.Println("DEBUG non-convergent refinement")
+	}
 	e.incon("UF refinement did not converge")
 	return "unknown"
+}
+
+// probeViolation is the fallback when the solver answers unknown to
+// "path condition and not cond" (hard arithmetic): take models of the path
+// condition alone, fix every symbolic input to the model's value, settle the
+// uninterpreted functions natively at that point and ask again - now a
+// ground query.  A sat answer is a real counterexample (cached for the
+// caller); anything else leaves the verdict unknown.  Called with the solver
+// at the path level.
+func (e *Exec) probeViolation(notCond string) bool {
+	e.cachedModel = nil
+	e.sol.Send("(push 1)")
+	defer e.sol.Send("(pop 1)")
+	dbg := os.Getenv("VERIF_DEBUG") != ""
+	for k := 0; k < 4; k++ {
+		if r := e.sol.Check(); r != "sat" {
+			if dbg {
+				fmt.Println("DEBUG probe: path condition", r)
+			}
+			return false
+		}
+		var pins []string
+		for _, in := range e.inputs {
+			if in.term == nil {
+				continue
+			}
+			v := e.sol.GetValue(in.term.S)
+			if v == "" {
+				return false
+			}
+			pins = append(pins, "(= "+in.term.S+" "+v+")")
+		}
+		if len(pins) == 0 {
+			return false
+		}
+		e.sol.Send("(push 1)")
+		for _, pn := range pins {
+			e.sol.Send("(assert " + pn + ")")
+		}
+		found := false
+		ok := e.sol.Check() == "sat"
+		// give every application its native value at this point, inner
+		// applications first (their values are arguments of the outer ones)
+		for i := 0; i < len(e.ufApps) && ok; i++ {
+			a := &e.ufApps[i]
+			vals := make([]string, len(a.args))
+			for j, t := range a.args {
+				vals[j] = e.sol.GetValue(t)
+			}
+			want, evalOK := a.eval(vals)
+			if !evalOK {
+				continue
+			}
+			e.sol.Send("(assert (= " + a.term + " " + want + "))")
+			ok = e.sol.Check() == "sat"
+		}
+		if dbg {
+			fmt.Println("DEBUG probe: point", k, "settled", ok)
+		}
+		if ok {
+			e.sol.Send("(assert " + notCond + ")")
+			r := e.sol.Check()
+			if dbg {
+				fmt.Println("DEBUG probe: ground check", r)
+			}
+			if r == "sat" {
+				if a, _, _ := e.firstMismatch(); a == nil {
+					e.cachedModel = e.model()
+					found = true
+				}
+			}
+		}
+		e.sol.Send("(pop 1)")
+		if found {
+			return true
+		}
+		// another point next time
+		e.sol.Send("(assert (not (and true " + strings.Join(pins, " ") + ")))")
+	}
+	return false
 }
